@@ -87,8 +87,8 @@ package index
 //@   ensures  err == nil && continuous ==> SpecCountIs(i.DB, tr, SpecPick(approx))
 //@   hint_after "alignment = telem.NewAlignment(iter.Position(), uint32(endApprox.Upper))" err == nil && continuous ==> SpecDecomp(i.DB, tr, p0, p0, startApprox.Upper, endApprox.Upper)
 //@   hint_after "alignment = telem.NewAlignment(iter.Position(), uint32(endApprox.Lower))" continuous ==> SpecDecomp(i.DB, tr, p0, domain.SpecIterPos(iter), startApprox.Upper, endApprox.Upper)
-//@   # stored index timestamps are strictly increasing inside a domain (index writers reject
-//@   # out-of-order stamps, C10 writer side), and SpecIdxStamp names what the reader reads:
+//@   # stored index timestamps are strictly increasing inside a domain (an assumption about the
+//@   # written data: no writer checks it), and SpecIdxStamp names what the reader reads:
 //@   # assumed of every reader the iterator opens
 //@   assume_after "r, err := iter.OpenReader(ctx)" err == nil ==> SpecCount(r) <= 1152921504606846975 && (forall x int64 :: SpecStampAt(r, x) == SpecIdxStamp(i.DB, domain.SpecIterPos(iter), x)) && (forall x int64, y int64 :: 0 <= x && x < y && y < SpecCount(r) ==> SpecStampAt(r, x) < SpecStampAt(r, y))
 //@   assume_after "r, err = iter.OpenReader(ctx)" err == nil ==> SpecCount(r) <= 1152921504606846975 && (forall x int64 :: SpecStampAt(r, x) == SpecIdxStamp(i.DB, domain.SpecIterPos(iter), x)) && (forall x int64, y int64 :: 0 <= x && x < y && y < SpecCount(r) ==> SpecStampAt(r, x) < SpecStampAt(r, y))
